@@ -40,6 +40,29 @@ def impl_object(a, dt):
     return np.array(s.velocity), np.array(s.displacement), [s.pga, s.pgv, s.pgd]
 
 
+def impl_object_history(a, dt, how):
+    """the derived series are first read on ANOTHER record, the record is then changed through the public API and the
+    derived series are read again; returns them together with the object's current record"""
+    import eqsig
+    a = np.array(a, dtype=float)
+    other = a * 0.5 + 1.0
+    s = eqsig.AccSignal(other, dt)
+    _ = (s.velocity, s.displacement, s.pgv, s.pgd, s.pga)
+    if how == 'reset_values':
+        s.reset_values(a)
+    elif how == 'reset_values(shorter)':
+        s.reset_values(a[:max(2, len(a) // 2)])
+    elif how == 'add_series':
+        s.add_series(a - other)
+    else:
+        s.add_constant(-1.0)
+        s.add_series(a * 0.5)
+    return np.array(s.velocity), np.array(s.displacement), [s.pga, s.pgv, s.pgd], np.array(s.values, dtype=float)
+
+
+HOWS = ['reset_values', 'reset_values(shorter)', 'add_series', 'add_constant+add_series']
+
+
 def gen(rng, tier):
     n_exact, n_tol = (220, 40) if tier == 'quick' else (2500, 400)
     maxlen = 300 if tier == 'quick' else 600
@@ -48,7 +71,13 @@ def gen(rng, tier):
         n = gens.small_len(rng, 2, maxlen)
         a, style = gens.int_record(rng, n, amp=rng.choice([3, 20, 50]))
         dt = gens.dyadic_dt(rng, 1, 10)
-        if k % 3 == 2:
+        if k % 3 == 2 and k % 2 == 0:
+            how = HOWS[(k // 6) % len(HOWS)]
+            r = guarded(impl_object_history, a, dt, how)
+            site, trap = 'AccSignal.velocity/displacement/pga/pgv/pgd[read; %s; read again]' % how, True
+            if not isinstance(r, ImplError):
+                a, r = r[3], r[:3]          # the model is given the object's current record
+        elif k % 3 == 2:
             r = guarded(impl_object, a, dt)
             site, trap = 'AccSignal.velocity/displacement/pga/pgv/pgd', True
         else:
